@@ -269,8 +269,18 @@ func (h *elGhost) apply(e vsup.Edge, to vsup.State) {
 		b.Reset(vsup.Int(e.Args[0]) * h.scale)
 		q.Reset()
 	case "Release":
+		hadRing := b.ringBuffer.rb != nil
 		b.Release()
 		q.Reset()
+		if hadRing {
+			// the ring went back to the pool: whoever takes it next (this goroutine, on this P) must find it empty
+			r := rbPool.Get()
+			if !r.IsEmpty() || r.Buffered() != 0 {
+				h.viol(op, "dirty-ring", fmt.Sprintf("the ring handed back by Release comes out of the pool holding %d bytes", r.Buffered()))
+				r.Reset()
+			}
+			rbPool.Put(r)
+		}
 	default:
 		panic("unknown action " + op)
 	}
